@@ -247,6 +247,11 @@ where
             .ok_or(PlanningError::PlannerUninitialised)?;
         let goal = &pd.goal;
 
+        // The start tree's root is the start state, which no motion check ever validates.
+        if !vc.is_valid(&pd.start_states[0]) {
+            return Err(PlanningError::InvalidStartState);
+        }
+
         // Main loop
         loop {
             // 1. Check for timeout
